@@ -2,6 +2,7 @@ package main
 
 import (
 	"fmt"
+	"strconv"
 	"go/types"
 	"sort"
 	"strings"
@@ -376,34 +377,11 @@ func globalQual(g *ssa.Global) string {
 // 3./4. load loop: normalisation table, index insertion
 
 func checkLoadNormalisation(w *World, r *Report) {
-	jobT := w.NamedType("", "PipelineJob")
-	// anchor: the running predicate and the load mapper / load function
-	var mapper *ssa.Function
-	for _, fn := range w.ModFuncs {
-		if fn.Parent() != nil || fn.Package() != w.Pkg("") {
-			continue
-		}
-		sig := fn.Signature
-		if sig.Recv() == nil && sig.Params().Len() == 1 && sig.Results().Len() == 1 &&
-			typeShort(sig.Params().At(0).Type()) == "PersistedJob" && namedOf(sig.Results().At(0).Type()) != nil && namedOf(sig.Results().At(0).Type()).Obj() == jobT.Obj() {
-			mapper = fn
-		}
-	}
-	if mapper == nil {
-		r.Undecided("normalise.anchors", "load mapper", "-", "no function PersistedJob → *PipelineJob in the root package")
-		return
-	}
-	var loadFn *ssa.Function
-	var mapCall *ssa.Call
-	for _, fn := range w.ModFuncs {
-		for _, ci := range findCalls(fn, func(_ string, c *ssa.CallCommon) bool { return c.StaticCallee() == mapper }) {
-			if c, ok := ci.(*ssa.Call); ok {
-				loadFn, mapCall = fn, c
-			}
-		}
-	}
+	// anchor: the place where a stored job becomes a *PipelineJob — the call of the load mapper,
+	// or (mapper inlined) the PipelineJob literal in the load loop
+	loadFn, mapCall, mapper := loadAnchorsX(w)
 	if loadFn == nil {
-		r.Undecided("normalise.anchors", "load function", "-", "load mapper is never called")
+		r.Undecided("normalise.anchors", "load mapper", "-", "no function PersistedJob → *PipelineJob is called, and no PipelineJob literal is built in a loop over the stored jobs")
 		return
 	}
 	r.Anchor("load function (calls the load mapper in a loop)", FuncName(loadFn))
@@ -436,10 +414,11 @@ func checkLoadNormalisation(w *World, r *Report) {
 		}
 	}
 
-	J := w.AP(mapCall)
+	J := strings.TrimPrefix(w.AP(mapCall.(ssa.Value)), "&")
+	Jval := w.AP(mapCall.(ssa.Value))
 	vars := map[string]string{
 		J + ".Start": "startptr", J + ".Completed": "completed", J + ".Canceled": "canceled",
-		FuncName(isRunning) + "(" + J + ")": "isrunning",
+		FuncName(isRunning) + "(" + J + ")": "isrunning", FuncName(isRunning) + "(" + Jval + ")": "isrunning",
 	}
 	// job predicates other than the running predicate (e.g. a named "is waiting") are spliced in
 	res := w.EnumPaths(loadFn, EnumOpts{Start: mapCall.Block(), Inline: true, Opaque: func(f *ssa.Function) bool {
@@ -448,6 +427,23 @@ func checkLoadNormalisation(w *World, r *Report) {
 	r.Count("paths", len(res.Paths))
 	// the loop over the stored jobs lies in the load function itself, or in its only caller
 	loopInLoadFn := loopHeaderOf(mapCall.Block()) != nil
+	// with the mapper inlined, the literal is first filled from the stored record P: P's state
+	// fields are the same inputs, and those copies are not "rewrites"
+	for _, p := range res.Paths {
+		for _, e := range p.Effects {
+			if e.Kind == "store" && e.Target == J+".ID" && strings.HasSuffix(e.Val, ".ID") {
+				P := strings.TrimSuffix(e.Val, ".ID")
+				vars[P+".Start"], vars[P+".Completed"], vars[P+".Canceled"] = "startptr", "completed", "canceled"
+			}
+		}
+	}
+	isConstVal := func(v string) bool {
+		if v == "true" || v == "false" || v == "nil" || strings.HasPrefix(v, "\"") {
+			return true
+		}
+		_, err := strconv.ParseInt(v, 10, 64)
+		return err == nil
+	}
 	if res.Truncated || len(res.Paths) == 0 {
 		r.Undecided("normalise.table", FuncName(loadFn), w.InstrPos(mapCall), "cannot enumerate the load loop body")
 		return
@@ -473,7 +469,7 @@ func checkLoadNormalisation(w *World, r *Report) {
 					// an already finished job is reported exactly as before: nothing of it (or of its tasks) is rewritten
 					if x == 1 || (c == 1 && s == 1) {
 						for _, e := range pe.Path.Effects {
-							if e.Kind == "store" && strings.HasPrefix(e.Target, J+".") {
+							if e.Kind == "store" && strings.HasPrefix(e.Target, J+".") && (mapper != nil || isConstVal(e.Val)) {
 								bad++
 								if first == "" {
 									first = fmt.Sprintf("row started=%v completed=%v canceled=%v (already finished): the load loop rewrites %s := %s", s == 1, c == 1, x == 1, strings.TrimPrefix(e.Target, J), e.Val)
@@ -511,10 +507,10 @@ func checkLoadNormalisation(w *World, r *Report) {
 			if e.Kind != "mapupdate" {
 				continue
 			}
-			if strings.HasPrefix(e.Target, "recv.jobsByID[") && strings.HasSuffix(e.Target, ".ID]") && e.Val == J {
+			if strings.HasPrefix(e.Target, "recv.jobsByID[") && strings.HasSuffix(e.Target, ".ID]") && e.Val == Jval {
 				nID++
 			}
-			if strings.HasPrefix(e.Target, "recv.jobsByPipeline[") && strings.HasSuffix(e.Target, ".Pipeline]") && strings.Contains(e.Val, "append(") && strings.Contains(e.Val, J) {
+			if strings.HasPrefix(e.Target, "recv.jobsByPipeline[") && strings.HasSuffix(e.Target, ".Pipeline]") && strings.Contains(e.Val, "append(") && strings.Contains(e.Val, Jval) {
 				nPipe++
 			}
 		}
@@ -634,13 +630,19 @@ func runTableOf(w *World, isRunning *ssa.Function) (map[[3]int64]int64, string) 
 	return out, ""
 }
 
-// loadAnchors finds the load mapper (PersistedJob → *PipelineJob) and the function calling it.
-func loadAnchors(w *World) (loadFn *ssa.Function, mapCall *ssa.Call) {
+// loadAnchors finds the place where a stored job becomes a *PipelineJob: the call of the
+// load mapper (PersistedJob → *PipelineJob), or — the mapper inlined — the PipelineJob
+// literal allocated in a loop of a function that reads the store.
+func loadAnchors(w *World) (loadFn *ssa.Function, at ssa.Instruction) {
+	f, a, _ := loadAnchorsX(w)
+	return f, a
+}
+
+func loadAnchorsX(w *World) (loadFn *ssa.Function, at ssa.Instruction, mapper *ssa.Function) {
 	jobT := w.NamedType("", "PipelineJob")
 	if jobT == nil {
-		return nil, nil
+		return nil, nil, nil
 	}
-	var mapper *ssa.Function
 	for _, fn := range w.ModFuncs {
 		if fn.Parent() != nil || fn.Package() != w.Pkg("") {
 			continue
@@ -651,23 +653,43 @@ func loadAnchors(w *World) (loadFn *ssa.Function, mapCall *ssa.Call) {
 			mapper = fn
 		}
 	}
-	if mapper == nil {
-		return nil, nil
-	}
-	for _, fn := range w.ModFuncs {
-		for _, ci := range findCalls(fn, func(_ string, c *ssa.CallCommon) bool { return c.StaticCallee() == mapper }) {
-			if c, ok := ci.(*ssa.Call); ok {
-				loadFn, mapCall = fn, c
+	if mapper != nil {
+		for _, fn := range w.ModFuncs {
+			for _, ci := range findCalls(fn, func(_ string, c *ssa.CallCommon) bool { return c.StaticCallee() == mapper }) {
+				if c, ok := ci.(*ssa.Call); ok {
+					loadFn, at = fn, c
+				}
 			}
 		}
+		if loadFn != nil {
+			return loadFn, at, mapper
+		}
 	}
-	return loadFn, mapCall
+	// inlined: a function of the root package that calls the store's Load and allocates a PipelineJob in a loop
+	for _, fn := range w.ModFuncs {
+		if fn.Parent() != nil || fn.Package() != w.Pkg("") {
+			continue
+		}
+		if len(findCalls(fn, func(_ string, c *ssa.CallCommon) bool { return c.IsInvoke() && c.Method.Name() == "Load" })) == 0 {
+			continue
+		}
+		allInstrs(fn, func(in ssa.Instruction) {
+			al, ok := in.(*ssa.Alloc)
+			if !ok || !al.Heap {
+				return
+			}
+			if n := namedOf(al.Type()); n != nil && n.Obj() == jobT.Obj() && loopHeaderOf(al.Block()) != nil {
+				loadFn, at = fn, al
+			}
+		})
+	}
+	return loadFn, at, nil
 }
 
 // loadEveryJob: no iteration of the load loop skips the mapper call — every stored job is
 // built (and, by index.insert-once, registered), so that it is reported, saved again and,
 // when retention removes it, removed together with its logs.
-func loadEveryJob(w *World, r *Report, rule string, loadFn *ssa.Function, mapCall *ssa.Call) {
+func loadEveryJob(w *World, r *Report, rule string, loadFn *ssa.Function, mapCall ssa.Instruction) {
 	if loadFn == nil || mapCall == nil {
 		r.Undecided(rule, "load loop", "-", "load function or mapper call not found")
 		return
@@ -679,7 +701,7 @@ func loadEveryJob(w *World, r *Report, rule string, loadFn *ssa.Function, mapCal
 	if header == nil {
 		// the per-job part is a function of its own: every path through it builds the job, and
 		// its only call site lies in the loop over the stored jobs
-		skip := PathQuery{Fn: loadFn, Target: isReturn, BlockInstr: func(in ssa.Instruction) bool { return in == ssa.Instruction(mapCall) }}.Find()
+		skip := PathQuery{Fn: loadFn, Target: isReturn, BlockInstr: func(in ssa.Instruction) bool { return in == mapCall }}.Find()
 		var sites []ssa.CallInstruction
 		var host *ssa.Function
 		for _, g := range w.ModFuncs {
